@@ -139,7 +139,7 @@ class C20(Check):
     technique = "crash-point enumeration (fork + os._exit at every traced call/statement, single and double faults) over Hypothesis-generated v1 databases, with row/schema/backup-bytes oracles"
     assumptions = ["a killed process leaves the files exactly as they are at the crash event; SQLite rolls back a dead writer's transaction on next open"]
     quick = dict(examples=400, workers=8)
-    thorough = dict(examples=2000, workers=16)
+    thorough = dict(examples=6000, workers=16)
 
     def strategy(self, tier):
         return st.tuples(usage_rows(), st.integers(0, 10 ** 6), st.integers(0, 10 ** 6))
